@@ -49,6 +49,8 @@ var (
 	cSharedJobs   = simrt.RegisterCounter("op_shared_readonly_frames")
 	cMarshalArena = simrt.RegisterCounter("op_marshal_and_mic_on_frames_over_the_arena")
 	cOtherCID     = simrt.RegisterCounter("op_reuse_decode_command_then_another_cid")
+	cDuplicate    = simrt.RegisterCounter("op_same_bytes_decoded_twice_for_two_workers")
+	cCandidate    = simrt.RegisterCounter("op_second_counter_candidate_on_the_owners_frame")
 	cRegEdge      = simrt.RegisterCounter("op_registration_size_0_or_refused_cid")
 	cJoinReadonly = simrt.RegisterCounter("op_join_family_validate_marshal_readonly")
 	cCryptoOps    = simrt.RegisterCounter("op_exported_crypto_on_arena")
@@ -356,7 +358,19 @@ func receiver(wd *world, n int, sub uint64) {
 			wd.boxes[b].Send(jobShared, j)
 			simrt.Count(cSharedJobs)
 		} else {
-			wd.boxes[r.Intn(wd.nWorkers)].Send(jobFrame, j)
+			first := r.Intn(wd.nWorkers)
+			wd.boxes[first].Send(jobFrame, j)
+			if r.Intn(6) == 0 && wd.nWorkers > 1 {
+				// the same transmission heard by a second gateway: the same
+				// bytes, decoded from private memory into a value of its own,
+				// handled by another worker at the same time
+				d := &job{wire: append([]byte(nil), wire...), sess: s, fcnt32: fcnts[si], tx: tx, truth: f, gen: genGet()}
+				d.phy, d.ref = &lorawan.PHYPayload{}, &lorawan.PHYPayload{}
+				if d.phy.UnmarshalBinary(append([]byte(nil), wire...)) == nil && d.ref.UnmarshalBinary(append([]byte(nil), wire...)) == nil {
+					wd.boxes[(first+1+r.Intn(wd.nWorkers-1))%wd.nWorkers].Send(jobFrame, d)
+					simrt.Count(cDuplicate)
+				}
+			}
 		}
 		// explicit scribble: the caller is free to do anything with its buffer
 		if r.Intn(3) == 0 {
@@ -627,8 +641,24 @@ func processFrame(j *job, r *sim.Rand) {
 
 	// I5: read-only operations do not modify their operand
 	before := frameSig(j.phy)
-	okA, errA := pipe.Validate(&s, j.phy, j.fcnt32, j.tx)
 	refBefore := frameSig(j.ref)
+	if r.Intn(3) == 0 {
+		// the owner of a frame tries another upper half of the counter first
+		// (it writes the FCnt field of ITS frame between two library calls)
+		simrt.Count(cCandidate)
+		pipe.Validate(&s, j.phy, j.fcnt32^0x10000, j.tx)
+		okC, errC := pipe.Validate(&s, j.ref, j.fcnt32^0x10000, j.tx)
+		wireC, fcC, txC := j.wire, j.fcnt32^0x10000, j.tx
+		theWD.observe("Validate*DataMIC (other counter candidate)", fmt.Sprint(okC, errC == nil), func() string {
+			var p lorawan.PHYPayload
+			if err := p.UnmarshalBinary(append([]byte(nil), wireC...)); err != nil {
+				return "undecodable"
+			}
+			ok, err := pipe.Validate(&s, &p, fcC, txC)
+			return fmt.Sprint(ok, err == nil)
+		})
+	}
+	okA, errA := pipe.Validate(&s, j.phy, j.fcnt32, j.tx)
 	okB, errB := pipe.Validate(&s, j.ref, j.fcnt32, j.tx)
 	if okA != okB || (errA == nil) != (errB == nil) {
 		simrt.Report("alias.decode:mic-verdict", fmt.Sprintf("MIC verdict on the frame decoded from a reused buffer (%v,%v) differs from the verdict on a private copy (%v,%v); wire %x", okA, errA, okB, errB, j.wire))
